@@ -413,6 +413,8 @@ Inductive check_err :=
 | CKUnusedParams (names : list bstr)            (* params %q are unused *)
 | CKBadCallParam                                (* unexpected call param type *)
 | CKLoopFunc (fname key : bstr)                 (* function %s: $%s is not the variable of an enclosing loop (commit 3fac11a) *)
+| CKLoopFuncArity (fname : bstr) (nargs : N)    (* function %s takes the variable of an enclosing loop, got %d arguments (C14-loopfunc-shape) *)
+| CKLoopFuncArg (fname : bstr)                  (* function %s: %s is not the variable of an enclosing loop; Args[0] is not a plain variable *)
 | CKOutOfFuel.                                  (* the model's recursion budget (shown sufficient: never returned by check_template) *)
 
 Record vbinding := { vb_name : bstr; vb_let : bool; vb_used : bool }.
@@ -481,14 +483,15 @@ Section Checker.
         end
     end.
 
-  (* checkLoopFunc: index, isFirst and isLast want the variable of an enclosing loop *)
+  (* checkLoopFunc: index, isFirst and isLast take exactly one argument, the plain variable of an enclosing loop *)
   Definition check_loop_func (st : tcs) (fname : bstr) (args : list node) : option check_err :=
     if bstr_eqb fname k_index || bstr_eqb fname k_is_first || bstr_eqb fname k_is_last then
       match args with
-      | NDataRef _ key _ :: _ =>
+      | [NDataRef _ key []] =>
           if existsb (fun v => negb (vb_let v) && bstr_eqb (vb_name v) key) (tc_vars st) then None
           else Some (CKLoopFunc fname key)
-      | _ => None
+      | [_] => Some (CKLoopFuncArg fname)
+      | _ => Some (CKLoopFuncArity fname (N.of_nat (length args)))
       end
     else None.
 
